@@ -4,9 +4,14 @@ import AkVerif.Gen.C15
 /-!
 Driver of C15. Every line carries the whole scenario:
 
-  sql    <v> <pct> <from> <group> <order> <call>                    → ok <text>            | err X
-  params <v> <pct> <from> <group> <order> <call>                    → ok <value>*          | err X
-  ids    <v> <pct> <from> <group> <order> <call> <method> <table>   → ok <id>* | ok none   | err X
+  sql    <scenario>                    → ok <n> <text>  (n placeholder marks) | unclean | err X
+  params <scenario>                    → ok <value>*          | err X
+  ids    <scenario> <method> <table>   → ok <id>* | ok none   | err X
+
+scenario = <v> <pct> <from> <group> <order> <corder> <scal> <prefix> n <column>^n <call>
+           (table t(id, column…); the conditions write a column as prefix ++ column)
+order  = default ORDER BY of the SqlMethod;  corder = `_order_by` of the call: ~ | V value | S order
+scal   = `_as_scalars` of the call: ~ | 0 | 1
 
 value  = N | I<int> | T<cps>
 arg    = S value | L n value^n | Z n value^n
@@ -15,7 +20,7 @@ cond   = T <field> <op> arg | P <field> arg | A k <field> arg | B k | O n cond^n
 call   = n (~ | cond)^n m (<name> arg)^m
 group  = ~ | <cps>
 order  = ~ | k (<col> 0|1)^k
-table  = ncols <col>^ncols nrows value^(ncols*nrows)     (the first column holds the record id)
+table  = nrows value^((n+1)*nrows)     (the first column holds the record id)
 method = list | one | one_or_none | tone_or_none
 v      = how the adapter spells the call (tuples or lists, `all` or `list`, `_as_scalars`,
          default or per-call ORDER BY, `SqlMethodT`): no meaning in the model
@@ -111,12 +116,9 @@ def pOrder : P (Option OrderSpec)
       | some (k, ts1) => (pNat ts1).map fun (d, r) => ((k, d != 0), r)
       | none => none) ts).map fun (o, r) => (some o, r)
 
-def pTable : P (List Cells) := fun ts =>
-  match pCounted pStr ts with
-  | some (cols, ts1) =>
-    match pNat ts1 with
-    | some (n, ts2) => pMany (fun ts => (pMany pValue cols.length ts).map fun (vs, r) => (cols.zip vs, r)) n ts2
-    | none => none
+def pTable (cols : List Str) : P (List Cells) := fun ts =>
+  match pNat ts with
+  | some (n, ts2) => pMany (fun ts => (pMany pValue cols.length ts).map fun (vs, r) => (cols.zip vs, r)) n ts2
   | none => none
 
 def pMethod : P Method
@@ -129,28 +131,69 @@ def pMethod : P Method
 structure Scenario where
   pct : Bool
   st : Stmt
-  order : Option OrderSpec
-  call : Call
+  order : Option OrderSpec      -- the ORDER BY in effect, as a structure
+  call : Call                   -- keyword arguments: the filters, then `_order_by`, `_as_scalars` if given
+  cols : List Str               -- column expressions of the table as the conditions write them (id first)
+
+/-- `_order_by` of the call: absent | any scalar (`None` cancels the default) | a rendered spec -/
+def pCallOrder : P (Option (Value ⊕ OrderSpec))
+  | "~" :: ts => some (none, ts)
+  | "V" :: ts => (pValue ts).map fun (v, r) => (some (.inl v), r)
+  | "S" :: ts =>
+    match pOrder ts with
+    | some (some o, r) => some (some (.inr o), r)
+    | _ => none
+  | _ => none
+
+def pScalars : P (Option Bool)
+  | "~" :: ts => some (none, ts)
+  | "0" :: ts => some (some false, ts)
+  | "1" :: ts => some (some true, ts)
+  | _ => none
 
 def pScenario : P Scenario := fun ts0 =>
   match pNat ts0 with
   | none => none
   | some (_, ts) =>
   match pNat ts with
-  | some (pct, ts1) =>
-    match pStr ts1 with
-    | some (frm, ts2) =>
-      match pOptStr ts2 with
-      | some (grp, ts3) =>
-        match pOrder ts3 with
-        | some (ord, ts4) =>
-          (pCall ts4).map fun (call, r) =>
-            ({ pct := pct != 0, st := { selectFrom := frm, groupBy := grp, orderBy := ord.map orderText },
-               order := ord, call := call }, r)
-        | none => none
-      | none => none
-    | none => none
   | none => none
+  | some (pct, ts1) =>
+  match pStr ts1 with
+  | none => none
+  | some (frm, ts2) =>
+  match pOptStr ts2 with
+  | none => none
+  | some (grp, ts3) =>
+  match pOrder ts3 with
+  | none => none
+  | some (dord, ts4) =>
+  match pCallOrder ts4 with
+  | none => none
+  | some (cord, ts5) =>
+  match pScalars ts5 with
+  | none => none
+  | some (scal, ts5a) =>
+  match pStr ts5a with
+  | none => none
+  | some (pfx, ts5b) =>
+  match pCounted pStr ts5b with
+  | none => none
+  | some (names, ts6) =>
+    (pCall ts6).map fun (call, r) =>
+      let okw : List (Str × Arg) := match cord with
+        | none => []
+        | some (.inl v) => [(Gen.C15.orderKey, .scalar v)]
+        | some (.inr o) => [(Gen.C15.orderKey, .scalar (.text (orderText o)))]
+      let skw : List (Str × Arg) := match scal with
+        | none => []
+        | some b => [(Gen.C15.scalarsKey, .scalar (.int (if b then 1 else 0)))]
+      let eff : Option OrderSpec := match cord with
+        | none => dord
+        | some (.inl _) => none
+        | some (.inr o) => some o
+      ({ pct := pct != 0, st := { selectFrom := frm, groupBy := grp, orderBy := dord.map orderText },
+         order := eff, call := { call with kwargs := call.kwargs ++ okw ++ skw },
+         cols := ("id".toList :: names).map (pfx ++ ·) }, r)
 
 def showValue : Value → String
   | .null => "N"
@@ -171,8 +214,9 @@ def handle (line : String) : String :=
   | "sql" :: ts =>
     match pScenario ts with
     | some (sc, []) =>
+      if !clean sc.pct sc.st sc.call then "unclean" else
       match prepare sc.pct sc.st sc.call with
-      | .ok p => "ok " ++ showCps p.text
+      | .ok p => "ok " ++ toString p.params.length ++ " " ++ showCps p.text   -- C15.placeholders: marks in the text
       | .error e => showFail e
     | _ => "bad-op"
   | "params" :: ts =>
@@ -187,9 +231,9 @@ def handle (line : String) : String :=
     | some (sc, ts1) =>
       match pMethod ts1 with
       | some (m, ts2) =>
-        match pTable ts2 with
+        match pTable sc.cols ts2 with
         | some (rows, []) =>
-          match run sc.pct sc.st.selectFrom sc.st.groupBy sc.order sc.call m rows with
+          match run sc.pct sc.st sc.order sc.call m rows with
           | .error e => showFail e
           | .ok none => "ok none"
           | .ok (some out) =>
